@@ -280,11 +280,21 @@ func c16Chunk(c *Ctx) {
 				continue
 			}
 			s := a.Results[0].String()
-			seen[s] = true
 			ok := false
 			for _, f := range x.forms {
 				if f == s {
 					ok = true
+					seen[f] = true
+				}
+			}
+			if !ok {
+				// a constant returned under a path condition that pins the selected bit to that constant
+				// (`if c&0x8000 != 0 { return 1 }`) selects the same bit
+				for _, f := range x.forms {
+					if pinnedEqual(a.Results[0], a.Cond, f) {
+						ok = true
+						seen[f] = true
+					}
 				}
 			}
 			if !ok {
@@ -314,6 +324,42 @@ func c16Chunk(c *Ctx) {
 		}
 		r.Check(len(bad) == 0, "C16-CHK", x.fn+"/bit-selection", p.Pos(fn.Pos()), fmt.Sprintf("every return selects the RFC 3611 bits (%d returns)", len(alts)), trunc(bad, 2))
 	}
+}
+
+// pinnedEqual: the bit vector got equals the form (given as its printed bit list) once every source bit that
+// the path condition fixes is replaced by its value.
+func pinnedEqual(got bits.BV, cond []bits.Bit, form string) bool {
+	pin := map[string]bits.Bit{}
+	for _, c := range cond {
+		switch c.K {
+		case bits.BSrc:
+			pin[c.String()] = bits.One
+		case bits.BNot:
+			pin[bits.Bit{K: bits.BSrc, Src: c.Src, I: c.I}.String()] = bits.Zero
+		}
+	}
+	sub := make(bits.BV, len(got))
+	changed := false
+	fs := strings.Fields(strings.Trim(form, "[]"))
+	if len(fs) != len(got) {
+		return false
+	}
+	// the printed form lists the most significant bit first
+	for i := range got {
+		want := fs[len(got)-1-i]
+		sub[i] = got[i]
+		if v, ok := pin[want]; ok && (got[i] == bits.Zero || got[i] == bits.One) {
+			if got[i] != v {
+				return false
+			}
+			changed = true
+			continue
+		}
+		if got[i].String() != want {
+			return false
+		}
+	}
+	return changed
 }
 
 func bitsConst(v uint64, w int) string {
